@@ -226,6 +226,7 @@ for n, b in [("firstwins_int_offbyone_then_boundary_r1", "[OffByOne, Boundary], 
              ("firstwins_float_r1", "[OffByOne, Boundary], rate 1.0: boundary float"), ("firstwins_float_r0", "[Boundary, BitFlip], rate 0.0: unchanged"),
              ("firstwins_memo_offbyone_then_unsafe_r1", "[OffByOne, MemoIndex(unsafe)], rate 1.0: saturating +-1"),
              ("firstwins_memo_r0", "[MemoIndex(unsafe), OffByOne], rate 0.0: unchanged"),
+             ("firstwins_memo_unsafe_first_r1", "[MemoIndex(unsafe), OffByOne] on a generator whose own unsafe flag is off, rate 1.0, index >= 2000: result < 1000"),
              ("firstwins_bytes_character_declines_empty_r1", "[Character, StringLength] on the empty byte string, rate 1.0: Character declines, StringLength fires"),
              ("firstwins_bytes_character_first_r1", "[Character, StringLength] on 2 symbolic bytes, rate 1.0: Character's contract"),
              ("firstwins_bytes_r0", "[StringLength, Character] on 2 symbolic bytes, rate 0.0: unchanged")]:
@@ -325,6 +326,9 @@ for n, what in [("binint1", "integer emitter (protocol 1, BININT1 choice)"), ("b
     H("purity_emit_" + n, "purity.rs", "PURITY", ["C07"], "quick",
       "emit_and_process twice from equal state and equal fuzzer bytes: %s; %s" % (what, PUR), stubs=EMIT_STUBS,
       funcs=["Generator::emit_and_process"], cost=2)
+H("purity_crossgen_int_p2_then_p0", "purity.rs", "PURITY(crossgen)", ["C07", "C05"], "thorough",
+  "a protocol-2 generator emits an integer, then a fresh protocol-0 generator does (2 fuzzer bytes each): the second opcode is INT or LONG "
+  "(no process-wide state carried between generators)", stubs=ENV_STUBS + ["c_pso recorder"], funcs=["Generator::emit_int"], cost=10)
 H("purity_unseeded_mustfail", "purity.rs", "PURITY(twin)", ["C07"], "quick",
   "must-fail twin: generate() WITHOUT a seed must be rejected by Kani (from_os_rng -> getrandom -> dlsym); if it verifies, the impurity detector is broken",
   stubs=ENV_STUBS + HEAD_CONTRACTS, funcs=["Generator::generate"], cost=1)
